@@ -37,6 +37,9 @@ type RunParams struct {
 	Twice      bool   `json:"twice"`
 	PLimit     int    `json:"plimit"`
 	OnlyClosed bool   `json:"onlyclosed"`
+	HashSeed   uint32 `json:"hashseed"`
+	Probe      bool   `json:"probe"`
+	FullEvery  int    `json:"fullevery"`
 }
 
 // RegressItem is a program plus runner settings.
